@@ -35,6 +35,15 @@ func propC03(c *Ctx) {
 	}
 	c.OnlyIn(h1, "send on acceptedChan", sends, ep+"deliverAccepted", ep+"Listen")
 
+	if fn := c.Fn(h1, ep+"Accept"); fn != nil {
+		c.CheckSites(h1, fn, []SiteSpec{
+			{Kind: "return", Args: []string{"nil", "nil", "tcpip.ErrInvalidEndpointState"}, Guards: []string{"!($0.state == 2)"}, Exact: true, N: 1, Why: "only a listening endpoint accepts"},
+			{Kind: "select", Args: []string{"blocking=false", "recv $0.acceptedChan"}, Guards: []string{"($0.state == 2)"}, Exact: true, N: 1, Why: "Accept takes the next delivered endpoint from the accept queue without blocking"},
+			{Kind: "call", Target: ep + "startAcceptedLoop", Args: []string{"select#2", "&new(waiter.Queue)"}, Guards: []string{"($0.state == 2)", "(0 == select#0)"}, Exact: true, N: 1, Why: "the accepted endpoint's worker is started with a fresh wait queue"},
+			{Kind: "return", Args: []string{"select#2", "&new(waiter.Queue)", "nil"}, Guards: []string{"($0.state == 2)", "(0 == select#0)"}, Exact: true, N: 1, Why: "... and exactly that endpoint is returned"},
+			{Kind: "return", Args: []string{"nil", "nil", "tcpip.ErrWouldBlock"}, Guards: []string{"!(0 == select#0)", "($0.state == 2)"}, Exact: true, N: 1, Why: "nothing queued: would block, never an endpoint"},
+		})
+	}
 	h2 := c.Rule("H2", "K1 site tables", "delivery only after a completed handshake / valid cookie", 6)
 	if fn := c.Fn(h2, ep+"handleSynSegment"); fn != nil {
 		call := "(*tcp.listenContext).createEndpointAndPerformHandshake($1, $2, $3)"
@@ -127,6 +136,17 @@ func propC03(c *Ctx) {
 			{Kind: "store", Target: "tcp.handshake.ackNum", Args: []string{"$0", "($2 + 1)"}, Guards: []string{}, Exact: true, N: 1, Why: "we acknowledge the peer's SYN: irs + 1"},
 		})
 	}
+	if fn := c.Fn(h3, hs+"handleSegment"); fn != nil {
+		c.CheckSites(h3, fn, []SiteSpec{
+			{Kind: "call", Target: hs + "synRcvdState", Args: []string{"$0", "$1"}, Guards: []string{"($0.state == 1)"}, Exact: true, N: 1, Why: "SYN-RCVD segments go to synRcvdState"},
+			{Kind: "call", Target: hs + "synSentState", Args: []string{"$0", "$1"}, Guards: []string{"!($0.state == 1)", "($0.state == 0)"}, Exact: true, N: 1, Why: "SYN-SENT segments go to synSentState"},
+			{Kind: "return", Args: []string{hs + "synRcvdState($0, $1)"}, Guards: []string{"($0.state == 1)"}, Exact: true, N: 1, Why: "its verdict is the handshake's"},
+			{Kind: "return", Args: []string{hs + "synSentState($0, $1)"}, Guards: []string{"!($0.state == 1)", "($0.state == 0)"}, Exact: true, N: 1, Why: "its verdict is the handshake's"},
+			{Kind: "return", Args: []string{"nil"}, Guards: []string{"!($0.state == 0)", "!($0.state == 1)"}, Exact: true, N: 1, Why: "a completed handshake ignores further segments"},
+			{Kind: "store", Target: "tcp.handshake.sndWnd", Args: []string{"$0", "$1.window"}, Guards: []string{}, Exact: true, N: 1, Why: "the peer's window is recorded from every segment"},
+			{Kind: "store", Target: "tcp.handshake.sndWnd", Args: []string{"$0", "($0.sndWnd@1 << $0.sndWndScale)"}, Guards: []string{"!($0.sndWndScale < 1)", "!(*tcp.segment).flagIsSet($1, 2)"}, Exact: true, N: 1, Why: "... scaled unless the segment is a SYN (RFC 7323: the window in a SYN is never scaled)"},
+		})
+	}
 	c.OnlyIn(h3, "store handshake.state=Completed", filterStores(c.FieldStores("tcp.handshake", "state"), "2"), hs+"synSentState", hs+"synRcvdState")
 
 	h4 := c.Rule("H4", "K9 decision table + K5", "checkAck == !(ACK && ack != iss+1); RST with seq = the bad ack number", 5)
@@ -164,6 +184,37 @@ func propC03(c *Ctx) {
 				Why: "exactly one reply, for a parsed segment that is not itself a RST"},
 		})
 	}
+
+	// H11: error discipline of the TCP package (Bind, Listen, connect, accept,
+	// handshake): an error value that a function examines does not end in a nil
+	// return, except at the reviewed sites.
+	h11 := c.Rule("H11", "K2 path search (error discipline, closed world over package tcp)", "no examined error of a callee ends in a nil return, except the reviewed conversions", 6)
+	swallowOK := map[string]string{
+		"(*tcp.endpoint).SetSockOpt/(*stack.Stack).TransportProtocolOption":  "optional limits: without configured min/max the requested buffer size is used as is",
+		"(*tcp.endpoint).connect$2/(*stack.Stack).RegisterTransportEndpoint": "ephemeral port search: ErrPortInUse means 'try the next port', not failure",
+		"(*tcp.endpoint).protocolMainLoop/dyn":                               "a handler's error ends the connection through resetConnectionLocked; the loop itself ends normally",
+		"(*tcp.handshake).execute/(*stack.Stack).TransportProtocolOption":    "SACK option lookup failing means SACK off",
+	}
+	usedSw := map[string]bool{}
+	nSw := 0
+	for _, fn := range c.P.Funcs {
+		if fn.Pkg == nil || inTesting(fn) || !strings.HasSuffix(fn.Pkg.Pkg.Path(), "/protocol/transport/tcp") {
+			continue
+		}
+		for _, sw := range SwallowedErrors(fn) {
+			nSw++
+			k := FuncName(fn) + "/" + sw.Desc
+			if why, ok := swallowOK[k]; ok {
+				if !usedSw[k+c.pos(sw.Ret)] {
+					c.Assume(h11, k+"@"+c.pos(sw.Ret), c.pos(sw.Ret), "reviewed: "+why)
+					usedSw[k+c.pos(sw.Ret)] = true
+				}
+				continue
+			}
+			c.Bad(h11, k, c.pos(sw.Ret), "the error returned by "+sw.Desc+" (call at "+c.pos(sw.Call)+") is examined, yet this return reports success on a path where it can be non-nil")
+		}
+	}
+	c.Check(nSw >= 4, h11, "tcp/reviewed-conversions-seen", "protocol/transport/tcp", "the search sees the reviewed conversion sites", "the search no longer sees the reviewed sites: it went blind")
 
 	h10 := c.Rule("H10", "K9 site tables (closed, exact guards)", "the half-open connection counter that switches the listener to SYN cookies", 4)
 	if fn := c.Fn(h10, "tcp.incSynRcvdCount"); fn != nil {
